@@ -48,6 +48,10 @@ func init() {
 				Old: "return first.GetName() < second.GetName()", New: "return len(first.GetName()) < len(second.GetName())", Expect: "LISTS-SORTED"},
 			{Name: "pool-config-committed-on-error", File: "internal/k8s/controllers/pool_controller.go",
 				Old: "\tres := r.Handler(r.Logger, cfg.Pools)\n", New: "\tr.currentConfig = cfg\n\tres := r.Handler(r.Logger, cfg.Pools)\n", Expect: "COMPARE-BEFORE-APPLY"},
+			{Name: "D16-cursor-on-the-shared-network", File: "internal/allocator/allocator.go",
+				Old: "\treturn ipaddr.NewCursor([]ipaddr.Prefix{*ipaddr.NewPrefix(&net.IPNet{IP: cidr.IP, Mask: cidr.Mask})})", New: "\treturn ipaddr.NewCursor([]ipaddr.Prefix{*ipaddr.NewPrefix(cidr)})", Expect: "SHARED-CONFIG"},
+			{Name: "handler-normalises-pool-priority-in-place", File: "internal/allocator/allocator.go",
+				Old: "\ta.pools = pools\n\n\t// Need to rearrange existing pool mappings and counts", New: "\ta.pools = pools\n\tfor _, pl := range pools.ByName {\n\t\tif pl.ServiceAllocations != nil && pl.ServiceAllocations.Priority < 0 {\n\t\t\tpl.ServiceAllocations.Priority = 0\n\t\t}\n\t}\n\n\t// Need to rearrange existing pool mappings and counts", Expect: "SHARED-CONFIG"},
 			{Name: "first-pool-of-map-selected", File: "internal/config/config.go",
 				Old: "func poolsByServiceSelector(pools map[string]*Pool) []string {\n\tvar poolsByServiceSelector []string\n", New: "func poolsByServiceSelector(pools map[string]*Pool) []string {\n\tvar poolsByServiceSelector []string\n\tfor _, pool := range pools {\n\t\tif pool.AutoAssign {\n\t\t\treturn []string{pool.Name}\n\t\t}\n\t}\n", Expect: "MAPORDER"},
 		},
@@ -72,6 +76,8 @@ func runC18(p *chk.Prog, r *chk.Report) {
 	c18Normalise(p, r)
 	c18MapExit(p, r)
 	c18MapCarry(p, r)
+	// what the reconcilers remember stays equal to what a new parse yields: nothing outside internal/config stores into it
+	sharedConfigRule(p, r)
 }
 
 // c18Normalise: validateLabelSelectorDuplicate is not pure - it sorts the Values of every match expression of the
@@ -254,7 +260,8 @@ func c18Lists(p *chk.Prog, r *chk.Report) {
 		v := kv[fld.Name()]
 		_, isSlice := fld.Type().Underlying().(*types.Slice)
 		if isSlice {
-			ok := v != nil && f.MatchWith("sortedCopy(X."+fld.Name()+")", v, chk.H("X", from)) != nil
+			ok := v != nil && (f.MatchWith("sortedCopy(X."+fld.Name()+")", v, chk.H("X", from)) != nil ||
+				f.MatchWith("sortedCopy(X."+fld.Name()+", ETC)", v, chk.H("X", from)) != nil)
 			x.Check("toConfig:"+fld.Name()+":sorted", lit.Pos(), ok, "", "the listed "+fld.Name()+" reach config.For in API listing order (not passed through sortedCopy)")
 		} else {
 			ok := (v == nil && baseCopy) || (v != nil && f.MatchWith("X."+fld.Name(), v, chk.H("X", from)) != nil)
@@ -298,6 +305,40 @@ func c18Lists(p *chk.Prog, r *chk.Report) {
 				}
 				b := lf.MatchNew("A.GetName() < B.GetName()", rr[0])
 				if b == nil {
+					// the name taken through a function parameter: nameOf(&res[i]) < nameOf(&res[j]), where every caller
+					// passes the GetName method expression of the element's pointer type
+					if kb := lf.MatchNew("K(&R[I]) < K2(&R2[J])", rr[0]); kb != nil {
+						k1, k2 := sc.ObjOf(kb["K"]), sc.ObjOf(kb["K2"])
+						pi := -1
+						for i := 0; ; i++ {
+							pv := sc.Param(i)
+							if pv == nil {
+								break
+							}
+							if types.Object(pv) == k1 {
+								pi = i
+							}
+						}
+						allGetName := pi >= 0 && k1 == k2
+						sites := p.CallSites(sc.Name())
+						for _, cs := range sites {
+							if pi < 0 || pi >= len(cs.Call.Args) {
+								allGetName = false
+								continue
+							}
+							sel, isSel := ast.Unparen(cs.Call.Args[pi]).(*ast.SelectorExpr)
+							if !isSel || sel.Sel.Name != "GetName" {
+								allGetName = false
+								continue
+							}
+							if sn := cs.Fn.Info().Selections[sel]; sn == nil || sn.Kind() != types.MethodExpr {
+								allGetName = false
+							}
+						}
+						if allGetName && len(sites) > 0 && lf.ObjOf(kb["R"]) == res && lf.ObjOf(kb["R2"]) == res && lf.ObjOf(kb["I"]) == call.I && lf.ObjOf(kb["J"]) == call.J {
+							cmpOK = true
+						}
+					}
 					continue
 				}
 				elem := func(e ast.Expr, idx types.Object) bool {
